@@ -224,6 +224,14 @@ def viewRows (lo hi : Int) (d : SeriesData) : List Row :=
 /-- the row-level answer: the statistics of the rows of the plain select. -/
 def aggRows (lo hi : Int) (d : SeriesData) : Stats := buildStats (viewRows lo hi d)
 
+/-- what the store answers for one series, one column and one (group, bucket): the statistics
+path when the regenerated eligibility predicate `matchPreAgg` fires (then there is neither a
+field filter nor a time bucket and `selected` is not looked at), otherwise the reducers over
+`selected`, the rows of the column that the plain select returns for the same filter, range
+and bucket. -/
+def answer (q : QueryShape) (lo hi : Int) (d : SeriesData) (selected : List Row) : Stats :=
+  if matchPreAgg q then aggViaStats lo hi d else buildStats selected
+
 /-- mean = sum / count as an exact fraction (numerator, denominator); none when there is no value. -/
 def Stats.mean (s : Stats) : Option (Int × Nat) := if s.count = 0 then none else some (s.sum, s.count)
 
